@@ -31,6 +31,21 @@ CLAIMED = {
     "C19": ("exploration", "deterministic simulation: per-run addressing monitor plus drain-to-quiescence liveness check once faults stop",
             "Per run: requests only for calls addressed to the current peer, new canon results attributed to it, next peers without self/duplicates and covering every peer marked by the remote-call/unseen-canon sites. At quiescence of lossless histories no state remains marked as sent but unexecuted.",
             "Known finding F2 (remote call marked sent with unresolved arguments) is classified by its probe and sender."),
+    "C08": ("exploration", "deterministic simulation: end-of-history observer merges of all peers' final and intermediate data in seeded permutations, a two-level grouping and at a participant",
+            "For every honest history, merging the same set of data in three orders, in a two-observer grouping and at a participating peer must give the same content-id knowledge (and identical traces modulo senders for stream-free scripts); any merge failure is a violation.",
+            "Permutations are sampled (3 per history), not enumerated."),
+    "C12": ("exploration", "deterministic simulation: generation-order monitor over consecutive data of each peer, per single-instance stream",
+            "For every run of honest histories and every stream with a single instance: call-produced values keep their relative generation order, previous-data values precede values that came only with the current data, which precede values produced in the run.",
+            "Values are identified by content id via rule U; new-scoped streams under folds and ap-produced values are not compared."),
+    "C20": ("exploration", "deterministic simulation with the hash seed as a scheduled input: every history is executed under two families of HashMap keys (LD_PRELOAD getrandom seam) in separate processes and every invocation is re-executed in-process",
+            "Per-history digests of all decoded outcomes (code, message, data, requests, next peers) must agree between two hash-seed families, and every run re-executed in the same process (fresh per-map keys) must give an identical decoded outcome.",
+            "Known findings F12 (memory addresses in rkyv error messages) and F13 (which CID-store error is named) are classified and reported as KNOWN-FINDING."),
+    "C21": ("exploration", "deterministic simulation with a version-skew fault: stub other-version peers restamp envelopes in flight from a grid around the minimum",
+            "Every run whose current data carries a stamped interpreter version is rejected with the unsupported-version error and the previous data returned iff the version precedes the minimum by an independent semver comparison; empty current data is never rejected for its version.",
+            "The weakest fit: the verdict depends on one envelope field; the simulator contributes realistic envelopes and interaction with stored data."),
+    "C22": ("exploration", "deterministic simulation with per-peer limit knobs for whole histories plus per-run boundary configurations (size-1, size, size+1, 0, 2x, max) against an unlimited twin",
+            "Hard mode rejects with the matching size error and returns previous data iff a size exceeds its limit; soft mode raises exactly the exceeded flags and is otherwise identical (decoded) to the unlimited twin run.",
+            "Twin comparison is per run; soft-limited peers also run whole histories under their knobs."),
 }
 
 NA = {
